@@ -22,7 +22,7 @@ abbrev Str := List Char
 structure Env where
   /-- `url.Parse(dst)` then `.String()`; `none` when `url.Parse` fails. -/
   normURL : Str → Option Str
-  /-- does `glob.Compile(path)` succeed -/
+  /-- does `glob.Compile(s)` succeed (route paths; since the repair of D03 also the host of a new host) -/
   globOK : Str → Bool
 
 inductive Cmd where
@@ -159,6 +159,8 @@ def addRoute (env : Env) (t : Table) (d : RouteDef) : Except Err Table :=
   | none => .error .badURL
   | some url =>
     if !t.has host then
+      -- repair of D03: the host pattern of a new host is compiled too (error class shared with the path)
+      if !env.globOK host then .error .badGlob else
       if !env.globOK path then .error .badGlob else
       .ok (t.set host [({ host, path, targets := [] } : Route).addTarget d.service url d.weight d.tags d.opts])
     else
@@ -215,7 +217,7 @@ def applyDef (env : Env) (t : Table) (d : RouteDef) : Except Err Table :=
   | .weight => weighRoute t d
   | .other _ => .error .invalidCommand
 
-/-! ### final sort: `sort.Sort(Routes)` with `Less(i,j) = rt[j].Path < rt[i].Path` (descending by path).
+/-! ### final sort: `sort.Sort(Routes)` with `Less(i,j) = pathLt rt[j].Path rt[i].Path` (descending by path).
 Paths are unique within a host (`addRoute` only appends a route when `find(path) == nil`), so the unstable
 Go sort has exactly one possible result: the descending order. -/
 
@@ -225,9 +227,15 @@ def strLt : Str → Str → Bool
   | _ :: _, [] => false
   | a :: as, b :: bs => if a.toNat < b.toNat then true else if b.toNat < a.toNat then false else strLt as bs
 
+/-- the order behind `Routes.Less` after the repair of D06 (fix: "order routes case-insensitively …"):
+`Less(i,j)` = `pathLt rt[j].Path rt[i].Path` — the lower-cased paths are compared first, paths that differ
+only in case keep the case-sensitive order. (`lowerL` is ASCII lower-casing, Go uses `strings.ToLower`.) -/
+def pathLt (a b : Str) : Bool :=
+  if lowerL a != lowerL b then strLt (lowerL a) (lowerL b) else strLt a b
+
 def insertDesc (r : Route) : List Route → List Route
   | [] => [r]
-  | x :: xs => if strLt x.path r.path then r :: x :: xs else x :: insertDesc r xs
+  | x :: xs => if pathLt x.path r.path then r :: x :: xs else x :: insertDesc r xs
 
 def sortRoutes (rs : List Route) : List Route := rs.foldr insertDesc []
 
